@@ -267,12 +267,117 @@ def history(cfg, case, out):
         cross = [("wrong-key:other-session", d) for d in atk.genuine("s2c", b.addr, n=6, pick="any")]
         atk.present(cross, "client", a, per_tick=2)
 
-        # ---------- phase: after disconnect
+        # ---------- phase: a forged datagram with the victim's NEXT sequence number is queued at the server just ahead of the
+        #            genuine one (same address, same tick): the genuine one is still processed
+        w.phase = "queued-ahead-of-genuine"
+        w.net.heal(0.002)
+        w.step(40)
+        g = w.connect_client()
+        g.updates_per_step = 1
+        w.step(10)
+        held = []
+        hold_g = lambda direction, addr, d, info: (held.append(d) or "drop") if (direction == "c2s" and addr == g.addr) else None
+        w.net.filters.append(hold_g)
+        for k in range(6):
+            rec = run.app.send(g, "client", 48, 0, with_cb=True)
+            del held[:]
+            w.run_until(lambda ww: any(len(d) > 60 for d in held), 12)
+            batch = list(held)
+            del held[:]
+            sg = run.sconn(g)
+            if sg is None or not batch:
+                break
+            calls0 = run.c.get("recv_calls", 0)
+            for d in batch:
+                hdr = L.parse_header(d)
+                forged = [("forged:same-seq-garbage", d[:20] + r.randbytes(len(d) - 20)),
+                          ("forged:same-seq-crc", A.forge_crc("c2s", d[12], hdr[2], hdr[3], 0, [(1, 6, bytes(12))], int(w.clock.now))),
+                          ("header-rewrite:same-seq-truncated", d[:20 + r.randint(0, 8)])][k % 3]
+                w.offer_server(g.addr, forged[1], forged[0])
+                atk.injected.inc("server|" + forged[0].split(":")[0])
+                w.offer_server(g.addr, d, "honest")
+            w.step(2)
+            run.c.inc("c01_forged_queued_ahead_of_genuine", len(batch))
+            if not run.app.deliveries.get(rec["id"]):
+                run.report("C01", "forged-datagram-displaces-genuine", "a %s datagram carrying the same sequence number was queued at the server just ahead of a genuine datagram "
+                           "of the same address: the genuine message was not processed (%d of %d datagrams reached the connection)" % (
+                               forged[0], run.c.get("recv_calls", 0) - calls0, 2 * len(batch)), {"origin": forged[0], "role": "server", "phase": w.phase})
+            else:
+                run.c.inc("c01_genuine_processed_despite_forgery_ahead")
+        w.net.filters.remove(hold_g)
+        w.step(5)
+
+        # ---------- phase: the application closed the connection, the object still receives.  Server: the handler kicks the client
+        #            from inside handle_message, forged hellos from that address sit behind it in the same batch.
+        w.phase = "closed-by-application"
+        kicked = []
+
+        def kicker(client, seqnum, msg):
+            if bytes(msg).endswith(b"KICKME") and not kicked:
+                kicked.append(client)
+                client.disconnect()
+        w.handler.on.setdefault("message", []).append(kicker)
+        w.net.filters.append(hold_g)
+        del held[:]
+        g.udp.send(L.make_payload(g.sender_id, 777777, 40)[:-6] + b"KICKME", retry=0)
+        w.run_until(lambda ww: any(len(d) > 60 for d in held), 12)
+        batch = list(held)
+        w.net.filters.remove(hold_g)
+        sg = run.sconn(g)
+        if sg is not None and batch:
+            for d in batch:
+                w.offer_server(g.addr, d, "honest")
+            hseq = lambda k: (int(g.udp.conn.seq_sending) + 1 + k) % 65535 + 1
+            hello = atk.genuine("c2s", g.addr, n=1, pick="any", types=(1,))
+            items = []
+            for k, (label, d) in enumerate(A.Forger(r, "c2s").forged(w.clock.now, hseq(0), 1, 0, 1, app)):
+                if label.startswith("forged:type=1") or k % 7 == 0:
+                    items.append((label, d))
+            if hello:
+                # the client's own genuine hello body under a fresh header
+                dec = L.decode_datagram(hello[0], None)
+                if dec.ok and dec.msgs:
+                    items.insert(0, ("forged:rewrapped-genuine-hello", A.forge_crc("c2s", 1, hseq(1), 1, 0, [(1, 1, dec.msgs[0][2])], int(w.clock.now))))
+            from mpgameserver import EllipticCurvePrivateKey
+            from mpgameserver.connection import HandshakeClientHelloMessage
+            try:
+                m = HandshakeClientHelloMessage()
+                m.client_pubkey = EllipticCurvePrivateKey.new().getPublicKey()
+                m.client_version = 0
+                items.insert(0, ("forged:attacker-client-hello", A.forge_crc("c2s", 1, hseq(2), 1, 0, [(1, 1, m.dumpb())], int(w.clock.now))))
+            except Exception:
+                run.c.inc("c01_attacker_hello_not_built")
+            for label, d in items:
+                w.offer_server(g.addr, d, label)
+                atk.injected.inc("server|" + label.split("@")[0].split(":")[0])
+            run.c.inc("c01_forged_at_kicked_connection", len(items))
+            w.step(3)
+            if kicked:
+                run.c.inc("c01_kicked_in_handle_message")
+                if w.ctxt.connections.get(g.addr) is kicked[0] and getattr(kicked[0].status, "value", 0) != 4:
+                    run.report("C01", "closed-connection-revived-by-unauthenticated-datagram", "a connection the handler had closed is %s again after forged hellos from its address" % (
+                        kicked[0].status,), {"origin": "forged", "role": "server", "phase": w.phase})
+        w.handler.on["message"].remove(kicker)
+
+        # ---------- phase: after disconnect (client side: the UdpClient keeps calling update())
         w.phase = "disconnected"
         a.udp.disconnect()
         w.step(20)
         late = atk.classes_for("s2c", a, a.udp.conn, False)
-        atk.present(r.sample(late, min(len(late), 60)), "client", a, per_tick=2)
+        late = r.sample(late, min(len(late), 60))
+        # hello-typed datagrams towards the closed client: forged ones and the genuine hello body of this session under a fresh header
+        cseq = lambda k: (int(a.udp.conn.bitfield_pkt.current_seqnum) + 1 + k) % 65535 + 1
+        late += [(label, d) for label, d in A.Forger(r, "s2c").forged(w.clock.now, cseq(0), 1, 0, 1, app) if label.startswith("forged:type=2")]
+        for gd in atk.genuine("s2c", a.addr, n=1, pick="any", types=(2,)):
+            dec = L.decode_datagram(gd, None)
+            if dec.ok and dec.msgs:
+                late.append(("forged:rewrapped-genuine-hello", A.forge_crc("s2c", 2, cseq(3), 1, 0, [(1, 2, dec.msgs[0][2])], int(w.clock.now))))
+                run.c.inc("c01_rewrapped_hello_to_closed_client")
+        st0 = a.udp.conn.status
+        atk.present(late, "client", a, per_tick=2)
+        if a.udp.conn.status != st0:
+            run.report("C01", "closed-connection-revived-by-unauthenticated-datagram", "the client had disconnected (%s); after forged hello-typed datagrams its status is %s" % (
+                st0, a.udp.conn.status), {"origin": "forged", "role": "client", "phase": w.phase})
 
         w.net.heal()
         w.step(30)
@@ -311,7 +416,8 @@ def finish(tier, seed, results):
     need(m["counters"], ["c01_forged_reached_recv", "c01_forged_keyed", "c01_forged_prekey", "recv_genuine_changed_state",
                          "inj:server|forged", "inj:client|forged", "inj:server|bitflip", "inj:client|bitflip",
                          "inj:server|truncation", "inj:server|header-rewrite-crc", "inj:server|wrong-key", "inj:client|wrong-key",
-                         "inj:server|reflection", "inj:server|random", "c01_continuity_checks", "c01_sessions_survived_silent_phase"], inconclusive)
+                         "inj:server|reflection", "inj:server|random", "c01_continuity_checks", "c01_sessions_survived_silent_phase", "c01_forged_queued_ahead_of_genuine",
+                         "c01_genuine_processed_despite_forgery_ahead", "c01_kicked_in_handle_message", "c01_forged_at_kicked_connection", "c01_rewrapped_hello_to_closed_client"], inconclusive)
     cov = {
         "evaluations": m["evaluations"],
         "distinct_nontrivial": m["distinct_nontrivial"],
